@@ -74,7 +74,9 @@ def run(ck):
     qf_s = pol + [j for j in qf_s if j not in pol]
     qb_s = ck.rng.sample(qb, min(nqb, len(qb)))
     eq_s = ck.rng.sample(eqs, min(neq, len(eqs)))
-    quantified = [j for j in eqs if any(c["op"] in ("forall", "exists") for c in j["a"])]     # always all of them
+    def has_pow(j):
+        return j["op"] == "pow" or any(has_pow(c) for c in j["a"])
+    quantified = [j for j in eqs if any(c["op"] in ("forall", "exists") for c in j["a"]) or has_pow(j)]     # always all of them
     eq_s = quantified + [j for j in eq_s if j not in quantified]
     evs = []
     eid = [0]
